@@ -187,7 +187,7 @@ def decr : Val → Val
   | .real q => .real (q - 1)
   | .text s => .text s
 
-/-- the tail of `get`: empty result, the −1 on a requested rowID column, flattening of one-column results -/
+/-- `_format_get_output`, the tail of `get`: empty result, the −1 on a requested rowID column, flattening of one-column results -/
 def finish (columns : Py.Str) (data : List (List Val)) : Except Err (List Item) :=
   match data with
   | [] => .ok []
@@ -261,17 +261,10 @@ def chunkLoop (recGet : List Kw → Except Err Result) (kw : List Kw) (idx : Nat
       | .error e => .error e
       | .ok index => chunkLoop recGet kw idx key neg rest (combine neg rows index)
 
-/-- the loop that fetches the data of the selected rows, `max_sql_values` rowIDs at a time -/
-def fetchLoop (recGet : List Kw → Except Err Result) (rowsKw : List Kw) :
-    List (List Int) → List Item → Except Err (List Item)
-  | [], data => .ok data
-  | c :: rest, data =>
-    match recGet ({ key := rowIDName, arg := .list (c.map Val.int) } :: rowsKw) with
-    | .error e => .error e
-    | .ok r =>
-      match asData r with
-      | .error e => .error e
-      | .ok d => fetchLoop recGet rowsKw rest (data ++ d)
+/-- the data of the selected rows, `max_sql_values` rowIDs per `SELECT … WHERE rowID in (…)`, in table order -/
+def fetchRows (db : Db) (tab : Tab) (cols : List Col) (sorted : List Int) : List (List Val) :=
+  (chunks Gen.max_sql_values sorted).flatMap (fun c =>
+    sqlSelect db tab cols [{ col := .rowID, neg := false, vals := c.map (fun r => Val.int (r + 1)) }])
 
 /-- the per-model loop -/
 def modelLoop (recGet : List Kw → Except Err Result) (kw : List Kw) : List Nat → Except Err (List (List Item))
@@ -315,13 +308,18 @@ def getF : Nat → Db → Py.Str → Py.Str → List Kw → Except Err Result
         | .ok rows =>
           let sorted := sortDedup intLt (rows.getD [])
           -- the data of these rows in the order of the table
-          let rowsKw := kw.filter (fun k => k.key = modelKey)
-          match fetchLoop (fun kw' => getF fuel db columns tn kw') rowsKw (chunks Gen.max_sql_values sorted) [] with
-          | .error e => .error e
-          | .ok data => .ok (.data data)
+          match findTab db tn with
+          | none => .error .operational
+          | some tab =>
+            match sqlCols db columns with
+            | .error e => .error e
+            | .ok cols =>
+              match finish columns (fetchRows db tab cols sorted) with
+              | .error e => .error e
+              | .ok items => .ok (.data items)
 
 /-- enough fuel: one level per keyword (each level removes one over-long list), one for the per-model
-    dispatch, one for the final query -/
+    dispatch, one for the plain query -/
 def getFuel (kw : List Kw) : Nat := kw.length + 3
 
 def get (db : Db) (columns tn : Py.Str) (kw : List Kw) : Except Err Result :=
@@ -431,8 +429,8 @@ def updateCore (db : Db) (columns : Py.Str) (values : List (List Val)) (tn : Py.
   -- check the size
   match values with
   | [] => (db, .error .indexError)                                  -- `len(values[0])`
-  | v0 :: _ =>
-    if cols.length ≠ v0.length then (db, .error .valueError) else
+  | _ :: _ =>
+    if values.any (fun val => val.length ≠ cols.length) then (db, .error .valueError) else
     -- get the row ID of the selection
     match get db rowIDName tn kw >>= asInts with
     | .error e => (db, .error e)
